@@ -112,6 +112,14 @@ Definition model_outward (pos : Z -> C3) (m : mesh) : bool :=
     | _ => false
     end) (surface_faces m).
 
+(* C10_surface_manifold_edges evaluated: edge_manifold m -> every directed edge of the surface is
+   used once and its reverse once *)
+Definition model_manifold_ok (m : mesh) : bool :=
+  let fs := surface_sorted m in
+  negb (edge_manifold m)
+  || forallb (fun e => Nat.eqb (count_edge e fs) 1 && Nat.eqb (count_edge (swap e) fs) 1)
+             (flat_map edges fs).
+
 Definition check_surface_none (m : mesh) : bool :=
   match extract_surface m with None => true | Some _ => false end.
 
